@@ -3,6 +3,7 @@ package c05heap
 import (
 	"fmt"
 	"testing"
+	"time"
 
 	"github.com/bradenaw/juniper/container/xheap"
 	"pgregory.net/rapid"
@@ -12,7 +13,7 @@ import (
 
 var suite = vk.NewSuite("C05")
 
-func TestMain(m *testing.M) { suite.Main(m) }
+func TestMain(m *testing.M) { suite.HangLimit = 60 * time.Second; suite.Main(m) }
 
 // Elem is ordered by Pri only; ID makes ties distinguishable to the oracle but not to the heap.
 type Elem struct {
